@@ -180,13 +180,14 @@ CURATED_C02 = [
     ["/{m: **, capture: 2}/{y}"],
     ["/a/?{o}", "/{x}/{y}"],
     ["/{p: /a|ab/}{q: /b*/}"],
-    ["/{a: /.+/}/{b: /[^a]/}"],
+    ["/{a: /.+/}/{b: /[b-z]/}"],
 ]
 
 # route sets exhibiting defects recorded in DESIGN.md §5 (fixed or listed as known findings)
 DEFECT_SETS_C02 = [
-    ["/l/{a: /(x(y))/}-{b: /z+/}"],                 # D2
-    ["/t/{a: /(x(y))/}-{b: /z+/}/e"],               # D3
+    (["/l/{a: /(x(y))/}-{b: /z+/}"], "/l/"),         # D2
+    (["/t/{a: /(x(y))/}-{b: /z+/}/e"], "/t/xy-", 3),  # D3
+    (["/{a: /(x(y))/}{b: /z+/}", "/{c}"], ""),
     ["/v1+{a}"], ["/a(b){a}"], ["/a${a}"], ["/a.b{x}"],  # D4
 ]
 
@@ -207,7 +208,10 @@ def routing_jobs(pid, tier, seed):
     if pid == "C07":
         curated = CURATED_C01[:8] + CURATED_C02[:4]
     for rs in curated:
-        add(rs, n, "curated")
+        if isinstance(rs, tuple):
+            add(rs[0], rs[2] if len(rs) > 2 else n, "curated", rs[1])
+        else:
+            add(rs, n, "curated")
     menu = SEG_MENU
     ndraw = {"quick": 20, "thorough": 160}[tier]
     drawn = 0
@@ -237,7 +241,7 @@ ROUTING_ASSUME = [
     "C02 relation for several binds in one segment is asserted on %-free segments; decoding is asserted on placeholder and match-all values",
 ]
 
-for _pid in ("C01", "C02", "C07"):
+for _pid in ("C01", "C02"):
     SPECS[_pid] = Spec(
         _pid, ROUTE_FILES, (lambda p: (lambda tier, seed: routing_jobs(p, tier, seed)))(_pid),
         assumptions=ROUTING_ASSUME, bounds=routing_bounds,
@@ -245,3 +249,133 @@ for _pid in ("C01", "C02", "C07"):
              "path of the real Tree.Match is one equivalence class of request paths; a class is non-trivial when the "
              "request reaches at least one tree node comparison",
     )
+
+
+# --------------------------------------------------------------------------- router level (C07, C09, C10)
+ROUTER_FILES = ["route/parse.go", "route/oracle.go", "route/oracle_api.go", "flamego/router.go"]
+
+
+def router_job(prog, n, method="GET", prefix="", hv=2, diff=0, twice=0, maporders=0, tag=""):
+    return {"pkg_short": "flamego", "setup": "VH_Router_setup", "body": "VH_Router_serve",
+            "params": {"prog": "\n".join(prog), "n": n, "method": method, "prefix": prefix, "hv": hv, "diff": diff,
+                       "twice": twice, "maporders": maporders, "family": tag}, "max_paths": 300000}
+
+
+C07_PROGS = [
+    (["R GET /a/b", "R POST /{x}", "R * /s/{m: **}", "R GET /a/{y}"], "?"),
+    (["NF", "R GET /{m: **, capture: 2}/e", "R GET,POST /o/?{p}", "R DELETE /"], "?"),
+    (["R GET /{m: **}", "R GET /{x}/{y: /[0-9]+/}", "R HEAD /{**}"], "?"),
+    (["R GET /{a: /x|y/}-{b}", "R GET /v{c}/{n: **, capture: 1}/z"], "GET"),
+    (["R GET /{m: **, capture: 1}", "R GET /{m: **, capture: 3}/a/{n: **, capture: 2}"], "GET"),
+    (["R PUT /"], "?"),
+]
+
+C07_TREES = [
+    ["/{m: **, capture: 1}"], ["/{m: **, capture: 2}/e", "/{x}"], ["/{m: **, capture: 3}/a/{n: **, capture: 2}"],
+    ["/{**}"], ["/{m: **}/a/{y}", "/{x}/a"], ["/a/?{m: **, capture: 2}"], ["/{x}/?{y}"],
+]
+
+
+def c07_jobs(tier, seed):
+    n = 5 if tier == "quick" else 7
+    jobs = []
+    for rs in C07_TREES:
+        jobs.append({"pkg_short": "route", "setup": "VH_Route_setup", "body": "VH_Route_match",
+                     "params": {"routes": "\n".join(rs), "n": n, "prefix": "", "family": "c07-tree"}, "max_paths": 300000})
+    for prog, method in C07_PROGS:
+        jobs.append(router_job(prog, n - 1 if method == "?" else n, method=method, twice=1, tag="c07-router"))
+    # determinism under every explored map-iteration order (small bound: orders multiply paths)
+    jobs.append(router_job(C07_PROGS[3][0], 4 if tier == "quick" else 6, method="GET", twice=1, maporders=1, tag="c07-maporder"))
+    if tier == "thorough":
+        rng = random.Random(seed * 31 + 7)
+        for _ in range(40):
+            rs = random_route_set(rng, SEG_MENU)
+            if rs:
+                jobs.append(router_job(["R GET " + t for t in rs], 5, method="?", twice=1, tag="c07-seeded"))
+    return jobs
+
+
+SPECS["C07"] = Spec(
+    "C07", ROUTE_FILES + ["route/oracle_api.go", "flamego/router.go"], c07_jobs,
+    assumptions=ROUTING_ASSUME + [
+        "the router is the real newRouter/addRoute/ServeHTTP; route.NewParser/Parse are redirected to the harness parser inside the interpreter (natively the real parser runs)",
+        "the context the router creates is an observer that records which chain was started with which parameters; what happens inside a chain is C03's subject",
+        "every Go run-time panic (index/slice bounds, nil dereference, failed type assertion, nil-map write, explicit panic) raised while serving is an uncaught-panic violation",
+        "requests start at router.ServeHTTP with an arbitrary URL.Path and Method, which is more than net/http can deliver",
+    ],
+    bounds=lambda tier: {"request_path": "all byte strings of length 0..%d" % (5 if tier == "quick" else 7),
+                         "method": "all byte strings of length 0..7 (symbolic) or a fixed known method", "headers": "none (C09)",
+                         "map_order": "one job explores every iteration order of maps with <=3 entries (two orders above)",
+                         "outside": "longer paths; panics inside user handlers (C15); net/http's own request parsing"},
+    rule="one job per route set / registration program; each explored path is one equivalence class of (method, path)",
+)
+
+C09_PROGS = [
+    (["R GET /s", "H 0 X-K=v"], "GET", 3),
+    (["R GET /s", "R GET /{x}", "H 0 X-K=^v$"], "GET", 3),
+    (["R GET /o/?p", "H 0 X-K=v"], "GET", 4),            # D5
+    (["R GET /o/?{p}", "R GET /{x}", "H 0 X-K=v"], "GET", 4),
+    (["R GET,POST /rs", "H 0 X-K=v"], "?", 3),            # D13
+    (["R * /any", "H 0 X-K=a|b"], "?", 4),
+    (["R GET /a", "H 0 X-K=v", "H 0 Y-K="], "GET", 2),   # replaced
+    (["R GET /a/{m: **}", "R GET /a/{x}", "R GET /a/b", "H 2 X-K=v", "H 1 Y-K=w"], "GET", 4),
+    (["R GET /{r: /a+/}", "R GET /{x}", "H 0 X-K=v", "H 0 "], "GET", 3),
+    (["R GET /{x}/{m: **}", "R GET /a/{y}/c", "H 1 X-K=v"], "GET", 5),
+]
+
+
+def c09_jobs(tier, seed):
+    jobs = []
+    for prog, method, n in C09_PROGS:
+        jobs.append(router_job(prog, n + (0 if tier == "quick" else 2), method=method, hv=2 if tier == "quick" else 3, diff=0,
+                               tag="c09"))
+    return jobs
+
+
+SPECS["C09"] = Spec(
+    "C09", ROUTER_FILES, c09_jobs,
+    assumptions=ROUTING_ASSUME + [
+        "header values are symbolic strings (presence symbolic); http.Header.Get is an intrinsic using the canonical MIME key of the concrete header name",
+        "header expressions come from a menu; the real regexp machine runs them on symbolic values; the oracle decides them with its own substring-search DP",
+        "eligibility oracle: C01's priority oracle with every form (short and long, every method) of a route gated by the last constraint set given to it",
+    ],
+    bounds=lambda tier: {"request_path": "0..(2-5)+%d bytes per program" % (0 if tier == "quick" else 2),
+                         "header_values": "0..%d bytes, presence symbolic" % (2 if tier == "quick" else 3),
+                         "programs": len(C09_PROGS)},
+    rule="one job per registration program with Headers() calls",
+)
+
+C10_PROGS = [
+    (["R GET /q/r", "R GET /q/{x}"], "GET", 5),
+    (["R GET /q/?r"], "GET", 5),                          # D6
+    (["R GET /q/r", "H 0 X-K=v"], "GET", 4),
+    (["R GET /", "R GET /a/", "R GET /a"], "GET", 4),
+    (["R GET /a/b", "R POST /a/b", "R GET /a/{m: **}"], "?", 4),
+    (["R GET /q/{x}", "R GET /q/r/?s", "H 1 X-K=v"], "GET", 6),
+    (["R * /z", "R GET /{x}", "H 0 X-K=v", "H 0 "], "?", 2),
+]
+
+
+def c10_jobs(tier, seed):
+    jobs = []
+    for prog, method, n in C10_PROGS:
+        jobs.append(router_job(prog, n + (0 if tier == "quick" else 2), method=method, hv=1, diff=1, tag="c10"))
+    if tier == "thorough":
+        rng = random.Random(seed * 131 + 3)
+        menu = [("a", "s"), ("b", "s"), ("q", "s"), ("{x%d}", "p"), ("{m%d: **}", "m")]
+        for _ in range(40):
+            rs = random_route_set(rng, menu)
+            if rs:
+                jobs.append(router_job(["R GET " + t for t in rs], 6, method="GET", diff=1, tag="c10-seeded"))
+    return jobs
+
+
+SPECS["C10"] = Spec(
+    "C10", ROUTER_FILES, c10_jobs,
+    assumptions=ROUTING_ASSUME + [
+        "differential in one run: router.ServeHTTP (with the static shortcut) vs routeTrees[method].Match on the same symbolic request",
+        "requests do not mutate the router (C05 monitors that), so histories reduce to: after every registration/Headers() prefix, all requests; programs fix the history",
+    ],
+    bounds=lambda tier: {"request_path": "0..(2-6)+%d bytes per program" % (0 if tier == "quick" else 2), "programs": len(C10_PROGS)},
+    rule="one job per registration history; each explored path is one equivalence class of requests",
+)
